@@ -148,6 +148,7 @@ package main
 //@ opaque func kmCertUser(state *RuntimeState, chains [][]*x509.Certificate, user string, notBefore int64) bool = (exists c int :: 0 <= c && c < len(chains) && len(chains[c]) >= 2 && user == chains[c][0].Subject.CommonName && notBefore == timeNanos(chains[c][0].NotBefore) && keymasterKeyFP(state, keyFP(chains[c][1].PublicKey)) && !deniedFP(state, keyFP(chains[c][0].PublicKey)) && !bytesEq(chains[c][1].Raw, state.selfRoleCaCertDer))
 //@ func (*RuntimeState).getUsernameIfKeymasterSigned
 //@   results user, notBefore, err
+//@   intmode math
 //@   reveal kmCertUser keymasterKeyFP deniedFP
 //@   ensures user != "" ==> err == nil && kmCertUser(state, VerifiedChains, user, timeNanos(notBefore))      #C06.km-cert @C06,C03,C11
 //@   loop 2 (userPubKeyFP string, rangeindex int) invariant (forall j int :: 0 <= j && j <= rangeindex ==> userPubKeyFP != state.Config.DenyTrustData.KeyDenyFPsshSha256[j])  #C06.km-deny-scan @C06
